@@ -274,24 +274,26 @@ func runC03(c *core.Ctx) error {
 		files[cfg] = []byte("SPECIFICATION Spec\nCONSTANTS\n  MaxTokens = 7\n  MaxDepth = 3\n  Scalars = {1, 2, 4, 5, 6, 9, 10, 12, 13, 14, 15, 16, 17, 18, 19, 20, 21}\n  Keys = {1, 3, 4, 5, 6, 7, 8, 10, 11, 12, 13}\nINVARIANTS TypeOK Balanced NoDanglingKey Emit\nCHECK_DEADLOCK FALSE\n")
 	}
 	var docs [][]jgTok
-	res, err := tlc.Run(tlc.Opts{Module: "JsonGen", Cfg: cfg, Workers: 16, Files: files, Timeout: 0, HeapGB: 12, OnLine: func(l string) {
-		var r struct {
-			Toks []jgTok `json:"toks"`
+	for _, cf := range []string{cfg, "JsonGen_wide.cfg"} {
+		res, err := tlc.Run(tlc.Opts{Module: "JsonGen", Cfg: cf, Workers: 16, Files: files, Timeout: 0, HeapGB: 12, OnLine: func(l string) {
+			var r struct {
+				Toks []jgTok `json:"toks"`
+			}
+			if err := json.Unmarshal([]byte(l), &r); err != nil {
+				c.InfraError("bad doc %s: %v", l, err)
+				return
+			}
+			docs = append(docs, r.Toks)
+		}})
+		res.Cleanup()
+		if err != nil {
+			return err
 		}
-		if err := json.Unmarshal([]byte(l), &r); err != nil {
-			c.InfraError("bad doc %s: %v", l, err)
-			return
+		if err := res.MustOK(); err != nil {
+			return err
 		}
-		docs = append(docs, r.Toks)
-	}})
-	res.Cleanup()
-	if err != nil {
-		return err
+		c.AddTLC(cf, res)
 	}
-	if err := res.MustOK(); err != nil {
-		return err
-	}
-	c.AddTLC(cfg, res)
 	if len(docs) == 0 {
 		return fmt.Errorf("no documents emitted")
 	}
